@@ -25,21 +25,53 @@ THEOREMS = [
     "C06_nest_class_independent",
     "C06_nest_progress",
     "C06_nest_flat",
+    "C06_collect_keeps_original",
+    "C06_collect_pinned_witness",
+    "C06_if_failed_announces_failure_only",
+    "C06_if_pinned_witness",
+    "C06_callback_handles_what_local_handles",
+    "C06_callback_pinned_witness",
 ]
 RULE = (
-    "random DAGs (2..N term nodes) x every kind of fault position (starting node, inner node, two at once) x "
-    "local/executor (ctl, ctl-cloudpickle) x random completion schedules x optional successful pre-run (so that "
-    "'outputs keep their previous values' is not vacuous) ; plus parentless single nodes run with "
-    "raise_run_exceptions=False and a listener on the `failed` signal. Non-trivial = a fault was actually hit"
+    "(dag) random DAGs (2..N term nodes) x every kind of fault position (starting node, inner node, two at once) x "
+    "local/executor (ctl, ctl-cloudpickle) x random completion schedules x optional successful pre-run; (single) "
+    "parentless nodes run with raise_run_exceptions=False and a listener on `failed`; (nest) random trees of "
+    "composites, nesting depth 0..3: a child is a term node or a macro with its own random DAG, macros as starting "
+    "and as signal-started children, run locally or on the executor, an independent sibling on the executor at every "
+    "level, 1..3 failing leaves at any depth, each raising a class drawn from a family of 32 Exception classes "
+    "(LookupError/IndexError/KeyError and subclasses, StopIteration, ReadinessError and look-alikes, FailedChildError "
+    "raised by a leaf, concurrent.futures errors, ...), random and laziest schedules (the sibling completes after the "
+    "failure has come up), optional successful pre-run; a sweep class x depth x starting/signal-started x "
+    "local/executor on a fixed chain; (flow) hand-wired flows: run signals wired by hand, nodes triggered several "
+    "times, `If` nodes with branches, a failing `If`; (base) the same trees with KeyboardInterrupt. "
+    "Non-trivial = a fault was actually hit"
 )
 TRUSTED = c01.TRUSTED + [
     "suppression (raise_run_exceptions=False) is checked by the oracle on the implementation only; the Lean model "
     "covers the raising path of composites",
+    "nested model (Model/ExecNest.lean): from its parent's point of view a macro child is a child that is out until "
+    "its own loop has ended, whether it runs locally (the parent's thread is inside it) or on an executor; the driver "
+    "replays the real call stack with the recorded completions; values are compared as ND/previous/new only (value "
+    "flow through macro IO is C09's subject), the cause chain as FailedChildError* + identity of the raised object",
+    "hand-wired flows (any-of run inputs, If branches) and KeyboardInterrupt are checked by the oracle on the "
+    "implementation only; the Lean content for them are the three small pinned/repaired models of Model/ExecNest.lean",
 ]
 ASSUMPTIONS = c01.ASSUMPTIONS
 CASE_TIMEOUT = 30
 
 STATS_VARIANT = c01.STATS_VARIANT
+
+
+def N_EXC():
+    from . import nodes_c06 as N
+
+    return N.EXCEPTIONS + ["KeyboardInterrupt"]
+
+
+KI_WITNESS = {"kind": "nest", "base": True,
+              "prog": {"n": 3, "order": [0, 1, 2], "slots": {"0": [[], [], []], "1": [[0], [], []], "2": [[1], [], []]},
+                       "kids": {}, "gid": {"0": 0, "1": 1, "2": 2}, "ret": 2},
+              "fails": {"1": "KeyboardInterrupt"}, "exec": ["1"], "mode": "ctl", "choices": [], "prerun": False}
 
 
 def gen_cases(rng, tier):
@@ -57,12 +89,15 @@ def gen_cases(rng, tier):
     for _ in range(20 if tier == "quick" else 100):
         yield {"kind": "single", "suppress": rng.random() < 0.7, "prerun": rng.random() < 0.7,
                "listener": True}
+    for key in N_EXC():
+        yield {"kind": "single", "suppress": rng.random() < 0.6, "prerun": rng.random() < 0.6, "listener": True,
+               "exc": key}
     # nested macros (depth 0..3) x exception classes, faults at every depth, executor siblings at every level
     from . import nodes_c06 as N
 
     quick = tier == "quick"
-    for depth, count in ((0, 40 if quick else 400), (1, 70 if quick else 900), (2, 60 if quick else 900),
-                         (3, 30 if quick else 500)):
+    for depth, count in ((0, 50 if quick else 600), (1, 110 if quick else 1600), (2, 100 if quick else 1600),
+                         (3, 50 if quick else 900)):
         for _ in range(count):
             yield gen_nest_case(rng, depth, N.EXCEPTIONS, n_max=4 if depth < 3 else 3)
     # every exception class at a starting / signal-started position, locally and on the executor, depth 0..2
@@ -75,6 +110,17 @@ def gen_cases(rng, tier):
         rest = [c for c in sweep if c not in must]
         sweep = must + rng.sample(rest, 40)
     yield from sweep
+    # every completion order at every schedule point (stateless DFS), small trees
+    for _ in range(6 if quick else 150):
+        c = gen_nest_case(rng, rng.choice([1, 1, 2]), N.EXCEPTIONS, n_max=3)
+        yield {**c, "choices": [], "prerun": False, "dfs": 25 if quick else 150}
+    # hand-wired flows: nodes triggered more than once, `If` branches (oracle only)
+    for _ in range(120 if quick else 2500):
+        yield gen_flow_case(rng, N.EXCEPTIONS)
+    # the one non-Exception class the library's own exception path names: KeyboardInterrupt (oracle only)
+    for depth, count in ((0, 10 if quick else 60), (1, 14 if quick else 80), (2, 10 if quick else 60)):
+        for _ in range(count):
+            yield gen_nest_case(rng, depth, ["KeyboardInterrupt"], base=True)
 
 
 def corpus():
@@ -98,6 +144,13 @@ def corpus():
            "prerun": False}
     yield {"kind": "nest", "prog": top, "fails": {"2.1.1": "IndexError"}, "exec": ["0", "2.1"], "mode": "ctl",
            "choices": [], "prerun": True}
+    # KeyboardInterrupt raised by a function that runs on an executor (a -> b -> c, b out)
+    yield KI_WITNESS
+    # hand-wired flows: a failed `If` after an earlier True; a node triggered again after its function raised
+    yield {"kind": "flow", "n": 2, "order": [0, 1], "edges": [[0, 1, "true"]], "starters": [0], "ifs": {"0": True},
+           "fails": {"0": "ValueError"}, "exec": [], "choices": [], "prerun": True}
+    yield {"kind": "flow", "n": 3, "order": [0, 1, 2], "edges": [[0, 2, "ran"], [1, 2, "ran"]], "starters": [0, 1],
+           "ifs": {}, "fails": {"2": "ValueError"}, "exec": [], "choices": [], "prerun": False}
 
 
 def _single(case):
@@ -105,6 +158,8 @@ def _single(case):
     from . import nodes
     from .execsim import term_str
 
+    if case.get("exc"):
+        return _single_class(case)
     nodes.reset()
     n = nodes.F0(label="n0")
     listener = nodes.F1(label="n1")
@@ -134,6 +189,41 @@ def _single(case):
         "flags": (bool(n.running), bool(n.failed)),
         "listener_calls": sum(1 for c in nodes.CALL_LOG if c[0] == 1),
         "after_calls": sum(1 for c in nodes.CALL_LOG if c[0] == 2),
+    }
+
+
+def _single_class(case):
+    """as `_single`, the failing function raising the class the case names (nodes_c06)"""
+    from . import nodes_c06 as N
+    from .execsim import term_str
+
+    N.reset()
+    n, listener, after = N.G0(label="n0"), N.G1(label="n1"), N.G2(label="n2")
+    for x in (n, listener, after):
+        x.use_cache = False
+    n.signals.output.failed >> listener.signals.input.run
+    n >> after
+    before = None
+    if case["prerun"]:
+        n.run(a="x")
+        before = term_str(n.outputs.o.value)
+        N.CALL_LOG.clear()
+        N.EPOCH[0] = 1
+    N.EXC[0] = case["exc"]
+    exc, ret = None, "n/a"
+    try:
+        ret = n.run(a="y", raise_run_exceptions=not case["suppress"])
+    except BaseException as e:  # noqa: BLE001
+        exc = e
+    return {
+        "kind": "single",
+        "raised": None if exc is None else ("Boom" if exc is N.RAISED.get(0) else f"other:{type(exc).__name__}"),
+        "ret": None if ret is None else term_str(ret),
+        "before": before,
+        "out": term_str(n.outputs.o.value),
+        "flags": (bool(n.running), bool(n.failed)),
+        "listener_calls": N.CALL_LOG.count(1),
+        "after_calls": N.CALL_LOG.count(2),
     }
 
 
@@ -231,8 +321,25 @@ def _run_once_with_chain(case):
 
 
 def run_impl(case):
+    if case["kind"] == "flow":
+        r = _run_flow(case)
+        stats = {"flow": 1, "fault_hit": 1 if r["raised"] else 0, f"outcome:{r['outcome']}": 1,
+                 "flow_if_failed": sum(1 for h in r["raised"] if h in case["ifs"]),
+                 "flow_runs_of_some_node>1": int(any(r["exec_log"].count(i) > 1 for i in set(r["exec_log"])))}
+        return {"obs": [str(sorted((k, str(v)) for k, v in r.items()))], "r": r, "runs": [r], "stats": stats}
     if case["kind"] == "nest":
-        r = _run_nest(case)
+        runs = None
+        if case.get("dfs"):
+            from .execsim import explore
+
+            def once(ch):
+                rr = _run_nest({**case, "choices": ch})
+                return rr, rr["options_seen"]
+
+            runs = [res for _prefix, res in explore(once, limit=case["dfs"])]
+            r = runs[0]
+        else:
+            r = _run_nest(case)
         hit = [l for l in case["fails"] if r["calls"][l] > 0]
         depth = max((l.count(".") for l in hit), default=0)
         stats = {"nest": 1, "fault_hit": 1 if hit else 0, f"outcome:{r['outcome']}": 1,
@@ -241,8 +348,9 @@ def run_impl(case):
                  "macro_on_exec": sum(1 for l in case["exec"] if l not in r["calls"]),
                  "late_completions": len(r["trace"]), "prerun": int(bool(case.get("prerun"))),
                  "several_faults": int(len(hit) > 1),
-                 **{f"exc:{case['fails'][l]}": 1 for l in hit}}
-        return {"obs": _nest_obs(case, r), "r": r, "runs": [r], "stats": stats}
+                 **{f"exc:{case['fails'][l]}": 1 for l in hit},
+                 **({"nest_dfs_cases": 1, "nest_dfs_schedules": len(runs)} if runs else {})}
+        return {"obs": _nest_obs(case, r), "r": r, "runs": runs or [r], "stats": stats}
     if case["kind"] == "single":
         r = _single(case)
         return {"obs": [str(sorted(r.items()))], "r": r, "runs": [r],
@@ -305,24 +413,42 @@ def nontrivial(case, impl):
 
 
 def model_input(case, impl):
-    if "r" not in impl:  # the run ended in a harness error (reported as such by the engine)
+    if "r" not in impl or case.get("base") or case["kind"] == "flow":  # harness error / outside the model
         return ["n 0", "run"]
     if case["kind"] == "nest":
-        return _nest_model_input(case, impl["r"])
+        lines = []
+        for k, r in enumerate(impl["runs"]):
+            if k:
+                lines.append("reset")
+            lines.extend(_nest_model_input(case, r))
+        return lines
     if case["kind"] != "dag" or case.get("prerun") or case.get("force_starters"):
         return ["n 0", "run"]
     return c01._model_input_one(case, impl["r"])
 
 
 def diff(case, impl, model):
+    if case["kind"] == "flow" or (case["kind"] == "nest" and case.get("base")):
+        return None  # interrupts are outside the model (they are not collected, they propagate as they are)
     if case["kind"] == "nest":
-        mine = impl["obs"]
-        if list(mine) == list(model):
-            return None
-        for k, (a, b) in enumerate(zip(mine, model)):
-            if a != b:
-                return {"index": k, "impl": a, "model": b, "trace": impl["r"]["trace"]}
-        return {"index": min(len(mine), len(model)), "impl": f"<{len(mine)} lines>", "model": f"<{len(model)} lines>"}
+        chunks = [[]]
+        for l in model:
+            if l == "reset":
+                chunks.append([])
+            else:
+                chunks[-1].append(l)
+        if len(chunks) != len(impl["runs"]):
+            return {"index": -1, "impl": f"{len(impl['runs'])} runs", "model": f"{len(chunks)} chunks"}
+        for r, ch in zip(impl["runs"], chunks):
+            mine = _nest_obs(case, r)
+            if mine == ch:
+                continue
+            for k, (a, b) in enumerate(zip(mine, ch)):
+                if a != b:
+                    return {"index": k, "impl": a, "model": b, "trace": r["trace"]}
+            return {"index": min(len(mine), len(ch)), "impl": f"<{len(mine)} lines>", "model": f"<{len(ch)} lines>",
+                    "trace": r["trace"]}
+        return None
     if case["kind"] != "dag" or case.get("prerun") or case.get("force_starters"):
         return None
     return c01._diff_one(case, impl["obs"], model)
@@ -347,7 +473,13 @@ def oracle(case, impl):
     r = impl["r"]
     fails = []
     if case["kind"] == "nest":
-        return _nest_oracle(case, r)
+        for rr in impl["runs"]:
+            f = _nest_oracle(case, rr)
+            if f:
+                return f
+        return []
+    if case["kind"] == "flow":
+        return _flow_oracle(case, r)
     if case["kind"] == "single":
         sup = case["suppress"]
         s = lambda c: {"clause": c, "kind": "single", "suppress": sup}  # noqa: E731
@@ -412,6 +544,9 @@ def oracle(case, impl):
 def shrink_candidates(case):
     if case["kind"] == "nest":
         yield from _nest_shrink(case)
+        return
+    if case["kind"] == "flow":
+        yield from _flow_shrink(case)
         return
     if case["kind"] != "dag":
         return
@@ -599,26 +734,78 @@ def _node_path(node):
     return tuple(int(x[1:]) for x in parts)
 
 
-class _Sched:
-    """execsim.Scheduler with a tolerant idle point: an idle `sleep` with nothing outstanding is just a sleep
-    (the real loop re-tests its condition); a loop that keeps sleeping runs into the step budget"""
+def _run_job_c06(job):
+    """execsim._run_job, but faithful to a real pool for exceptions that are not `Exception`s: the pool stores them
+    in the future; if a done-callback lets one escape, that ends the WORKER (thread), never the caller of the run"""
+    import pickle
 
-    def __new__(cls, choices, ident):
-        from .execsim import Scheduler, Stuck
+    import cloudpickle
 
-        class S(Scheduler):
-            spurious = 0
+    owner, fut, fn, args, kwargs, mode = job
+    fut.set_running_or_notify_cancel()
+    try:
+        if mode == "ctl":
+            res = fn(*args, **kwargs)
+        else:
+            dumps, loads = (pickle.dumps, pickle.loads) if mode == "ctl-pickle" else (cloudpickle.dumps, cloudpickle.loads)
+            fn2, args2, kwargs2 = loads(dumps((fn, args, kwargs)))
+            res = loads(dumps(fn2(*args2, **kwargs2)))
+    except BaseException as e:  # noqa: BLE001
+        from .execsim import Stuck
 
-            def at_sleep(self, *_a):
-                if not self.jobs:
-                    self.points += 1
-                    self.spurious += 1
-                    if self.spurious > 50 or self.points > self.max_points:
-                        raise Stuck("idle with nothing outstanding")
-                    return
-                return Scheduler.at_sleep(self, *_a)
+        if isinstance(e, Stuck) or type(e).__name__ == "CaseTimeout":
+            raise
+        try:
+            fut.set_exception(e)
+        except BaseException as e2:  # noqa: BLE001
+            if e2 is not e:
+                raise
+    else:
+        fut.set_result(res)
 
-        return S(choices, ident=ident)
+
+def _Sched(choices, ident):
+    """execsim.Scheduler with (1) a tolerant idle point: an idle `sleep` with nothing outstanding is just a sleep (the
+    real loop re-tests its condition; a loop that keeps sleeping runs into the budget) and (2) `_run_job_c06`"""
+    from .execsim import Scheduler, Stuck
+
+    class S(Scheduler):
+        spurious = 0
+
+        def at_emit(self):
+            self.events += 1
+            self.points += 1
+            if self.points > self.max_points:
+                raise Stuck("step budget exceeded")
+            if self.jobs:
+                c = self._choose(len(self.jobs) + 1)
+                if c:
+                    job = self.jobs.pop(c - 1)
+                    self.trace.append(f"{self.events}:{self.ident(job[0])}")
+                    _run_job_c06(job)
+
+        def at_sleep(self, *_a):
+            self.points += 1
+            if self.points > self.max_points:
+                raise Stuck("step budget exceeded")
+            if not self.jobs:
+                self.spurious += 1
+                if self.spurious > 50:
+                    raise Stuck("idle with nothing outstanding")
+                return
+            c = self._choose(len(self.jobs))
+            job = self.jobs.pop(c)
+            self.trace.append(f"s:{self.ident(job[0])}")
+            _run_job_c06(job)
+
+        def drain(self):
+            n = 0
+            while self.jobs and n < 100:
+                _run_job_c06(self.jobs.pop(0))
+                n += 1
+            return n
+
+    return S(choices, ident=ident)
 
 
 def _chain_tokens(exc, N, gid_path):
@@ -725,6 +912,7 @@ def _run_nest(case):
             "before": None if before is None else {_pstr(p): v for p, v in before.items()},
             "calls": {_pstr(p): calls.count(g) for p, g in leaf_gid.items()},
             "late_jobs": [sched.ident(j[0]) for j in sched.jobs],
+            "options_seen": list(sched.options_seen),
         }
         # what the outstanding jobs do when they complete after the run has returned (still under the scheduler:
         # a macro's late job runs its loop)
@@ -863,7 +1051,8 @@ def _nest_oracle(case, r):
     progs = dict(_walk(case["prog"]))
     hit = [l for l in case["fails"] if r["calls"][l] > 0]
     depth = max((l.count(".") for l in hit), default=0)
-    on_exec = any(l in case["exec"] for l in hit)
+    # the failing function ran on an executor: itself handed over, or inside a macro that was
+    on_exec = any(_pstr(_ppath(l)[:k]) in case["exec"] for l in hit for k in range(1, len(_ppath(l)) + 1))
     base_only = any(case["fails"][l] in N.BASE_ONLY for l in hit)
     nested = depth > 0
 
@@ -902,10 +1091,12 @@ def _nest_oracle(case, r):
         if failed and x not in expect_failed:
             fails.append({"clause": "unrelated-node-marked-failed", "detail": f"{x} failed; failing nodes {hit}",
                           "signature": sig("nobody-else")})
-    # (c) no node is left running, at any level, when the error reaches the caller
+    # (c) no node is left running, at any level, when the error reaches the caller. Not demanded of an INTERRUPT
+    # (KeyboardInterrupt): it propagates at once by design, children that are out on an executor truly are still
+    # running; (b) still demands that the interrupted node and the composites above it are not running.
     left = [x for x, (run, _f) in r["flags"].items() if run]
     rc = {x: v for x, v in r["running_children"].items() if v}
-    if left or rc or r["late_jobs"]:
+    if (left or rc or r["late_jobs"]) and not base_only:
         fails.append({"clause": "node-left-running",
                       "detail": f"running={left} running_children={rc} jobs still out={r['late_jobs']}"
                                 + (f" calls after their late completion={r['calls_after_late']}" if r["calls_after_late"] else ""),
@@ -980,3 +1171,228 @@ def _nest_shrink(case):
         del tgt["gid"][str(i)]
         _number(new)
         yield {**case, "prog": new, "exec": [x for x in case["exec"] if x != me]}
+
+
+# =====================================================================================================
+# hand-wired flows (kind "flow"): run signals wired by hand, nodes triggered more than once, `If` branches
+# =====================================================================================================
+#
+# case = {"kind": "flow", "n": n, "order": [...], "edges": [[j, i, "ran"|"true"|"false"]], "starters": [...],
+#         "ifs": {"i": bool}, "fails": {"i": class key}, "exec": [...], "choices": [...], "prerun": bool}
+# Nodes are term nodes G_i without data connections (every input has its default: always ready) or `If` nodes with a
+# constant condition; control flow only. A failing `If` gets a condition whose truth value raises.
+
+
+def gen_flow_case(rng, classes, n_max=6):
+    n = rng.randint(2, n_max)
+    hidden = list(range(n))
+    rng.shuffle(hidden)
+    pos = {v: k for k, v in enumerate(hidden)}
+    order = list(range(n))
+    rng.shuffle(order)
+    ifs = {str(i): rng.random() < 0.5 for i in range(n) if rng.random() < 0.3}
+    edges = []
+    for i in range(n):
+        earlier = [j for j in range(n) if pos[j] < pos[i]]
+        if not earlier:
+            continue
+        # one, two or three triggers: a node with several run connections is run once per trigger
+        for j in rng.sample(earlier, min(len(earlier), rng.choice([0, 1, 1, 1, 2, 2, 3]))):
+            sig = rng.choice(["ran", "true", "false"]) if str(j) in ifs else "ran"
+            edges.append([j, i, sig])
+    targets = {i for _j, i, _s in edges}
+    starters = [i for i in hidden if i not in targets]
+    if rng.random() < 0.2:
+        extra = [i for i in hidden if i in targets]
+        if extra:
+            starters.append(rng.choice(extra))  # a starting node that is also triggered by a signal
+    rng.shuffle(starters)
+    k = rng.choice([1, 1, 1, 2])
+    fl = rng.sample(range(n), min(k, n))
+    # how often a node can be triggered at most; a child that is out on an executor must not be triggered again
+    # meanwhile (the refusal would be a second, genuine error of the run), so only once-triggered nodes go there
+    mult = {}
+    for i in hidden:
+        mult[i] = (1 if i in starters else 0) + sum(mult[j] for j, t, _s in edges if t == i)
+    return {"kind": "flow", "n": n, "order": order, "edges": edges, "starters": starters, "ifs": ifs,
+            "fails": {str(i): rng.choice(classes) for i in fl},
+            "exec": sorted(i for i in range(n) if mult[i] <= 1 and rng.random() < 0.45),
+            "choices": [] if rng.random() < 0.4 else [rng.choice([0, 0, 0, 1, 2, 3]) for _ in range(40)],
+            "prerun": rng.random() < 0.6}
+
+
+class _BadTruth:
+    """a condition whose truth value cannot be taken"""
+
+    def __init__(self, i, key):
+        self.i, self.key = i, key
+
+    def __bool__(self):
+        from . import nodes_c06 as N
+
+        e = N.FAMILY[self.key](f"if{self.i}")
+        N.RAISED[self.i] = e
+        raise e
+
+    def __eq__(self, other):
+        return self is other
+
+    def __hash__(self):
+        return id(self)
+
+
+def _run_flow(case):
+    from pyiron_workflow import Workflow
+    from pyiron_workflow.nodes.standard import If
+
+    from . import nodes_c06 as N
+    from .execsim import CtlExecutor, Instrument, Stuck, term_str
+
+    N.reset()
+    n = case["n"]
+    wf = Workflow("w", autoload=None, automate_execution=False)
+    wf.use_cache = False
+    ns = {}
+    for i in case["order"]:
+        if str(i) in case["ifs"]:
+            ns[i] = If(label=f"n{i}", condition=case["ifs"][str(i)])
+        else:
+            ns[i] = N.term_node(i, label=f"n{i}")
+        ns[i].use_cache = False
+        wf.add_child(ns[i])
+    for j, i, sig in case["edges"]:
+        getattr(ns[j].signals.output, sig) >> ns[i].signals.input.run
+    wf.starting_nodes = [ns[i] for i in case["starters"]]
+
+    def out(i):
+        ch = ns[i].outputs.truth if str(i) in case["ifs"] else ns[i].outputs.o
+        return term_str(ch.value)
+
+    before = None
+    if case.get("prerun"):
+        wf.run()
+        before = {i: out(i) for i in ns}
+        N.CALL_LOG.clear()
+        N.EPOCH[0] = 1
+    for i, key in case["fails"].items():
+        if i in case["ifs"]:
+            ns[int(i)].inputs.condition.value = _BadTruth(int(i), key)
+        else:
+            N.EXC[int(i)] = key
+    sched = _Sched(list(case["choices"]), ident=lambda owner: owner.label[1:])
+    exe = CtlExecutor(sched, "ctl")
+    for i in case["exec"]:
+        ns[i].executor = exe
+    outcome, exc = "ok", None
+    with Instrument(sched):
+        try:
+            wf.run()
+        except Stuck as e:
+            outcome = f"stuck:{e}"
+        except BaseException as e:  # noqa: BLE001
+            outcome = f"raised:{type(e).__name__}"
+            exc = e
+        r = {
+            "outcome": outcome, "chain_types": c06_chain(exc),
+            "raised_is_orig": {str(i): any(e is x for x in _chain_objs(exc)) for i, e in N.RAISED.items()},
+            "raised": sorted(str(i) for i in N.RAISED),
+            "flags": {str(i): (bool(ns[i].running), bool(ns[i].failed)) for i in ns},
+            "wf_flags": (bool(wf.running), bool(wf.failed)),
+            "running_children": [int(l[1:]) for l in wf.running_children],
+            "exec_log": [int(l[1:]) for l in wf.provenance_by_execution],
+            "done_log": [int(l[1:]) for l in wf.provenance_by_completion],
+            "outs": {str(i): out(i) for i in ns}, "before": None if before is None else {str(i): v for i, v in before.items()},
+            "truth": {str(i): (ns[i].outputs.truth.value is True) for i in ns if str(i) in case["ifs"]},
+            "late_jobs": [sched.ident(j[0]) for j in sched.jobs], "trace": list(sched.trace),
+        }
+        try:
+            sched.drain()
+        except BaseException:  # noqa: BLE001
+            pass
+    return r
+
+
+def _flow_oracle(case, r):
+    fails = []
+    hit = list(r["raised"])  # the nodes whose function actually raised
+    memo = {}
+
+    def mult(i):  # how often node i can be triggered at most (the wiring is acyclic)
+        if i not in memo:
+            memo[i] = (1 if i in case["starters"] else 0) + sum(mult(j) for j, t, _s in case["edges"] if t == i)
+        return memo[i]
+
+    retrig = any(mult(int(h)) > 1 for h in hit)
+    is_if = any(h in case["ifs"] for h in hit)
+
+    def sig(c, **kw):
+        return {"clause": c, "kind": "flow", "failing_on_exec": any(int(h) in case["exec"] for h in hit),
+                "retriggered": retrig, "failing_if": is_if, **kw}
+
+    if r["outcome"].startswith("stuck"):
+        return [{"clause": "run-does-not-terminate", "detail": r["outcome"], "signature": sig("terminate")}]
+    if not hit:
+        return fails
+    if not r["outcome"].startswith("raised:"):
+        fails.append({"clause": "error-does-not-reach-caller", "detail": f"run returned normally; failing nodes {hit}",
+                      "signature": sig("reaches-caller")})
+    elif len(hit) == 1 and not r["raised_is_orig"].get(hit[0]):
+        fails.append({"clause": "original-exception-lost",
+                      "detail": f"{case['fails'][hit[0]]} raised by {hit[0]} is not in the cause chain {r['chain_types']}",
+                      "signature": sig("cause")})
+    for h in hit:
+        run, failed = r["flags"][h]
+        if run or not failed:
+            fails.append({"clause": "failing-node-flags", "detail": f"{h}: running={run} failed={failed}",
+                          "signature": sig("node-flags")})
+    if r["wf_flags"] != (False, True):
+        fails.append({"clause": "composite-flags", "detail": f"workflow (running, failed)={r['wf_flags']}",
+                      "signature": sig("composite-flags")})
+    for x, (_run, failed) in r["flags"].items():
+        if failed and x not in hit:
+            fails.append({"clause": "unrelated-node-marked-failed", "detail": f"{x} failed; failing nodes {hit}",
+                          "signature": sig("nobody-else")})
+    left = [x for x, (run, _f) in r["flags"].items() if run]
+    if left or r["running_children"] or r["late_jobs"]:
+        fails.append({"clause": "node-left-running",
+                      "detail": f"running={left} running_children={r['running_children']} jobs out={r['late_jobs']}",
+                      "signature": sig("left-running")})
+    for h in hit:
+        expect = r["before"][h] if r["before"] is not None else "ND"
+        if r["outs"][h] != expect:
+            fails.append({"clause": "outputs-not-kept", "detail": f"{h}: {r['outs'][h]} vs previous {expect}",
+                          "signature": sig("outputs-kept")})
+    # contained: a node runs only if SOME node that completed (not one that failed) announces it: follow the signals of
+    # completed nodes from the starting nodes — `ran` always, of an `If` also the branch of its truth value
+    may = set(case["starters"])
+    changed = True
+    while changed:
+        changed = False
+        for j, i, s in case["edges"]:
+            if j not in may or i in may or str(j) in hit:
+                continue
+            if s == "ran" or (s == "true") == r["truth"].get(str(j), None):
+                may.add(i)
+                changed = True
+    for i in sorted(set(r["exec_log"]) - may):
+        fails.append({"clause": "downstream-of-failure-executed",
+                      "detail": f"{i} ran although every signal leading to it comes from failed nodes {hit}; edges {case['edges']}",
+                      "signature": sig("no-downstream")})
+    return fails
+
+
+def _flow_shrink(case):
+    if len(case["fails"]) > 1:
+        for l in case["fails"]:
+            yield {**case, "fails": {k: v for k, v in case["fails"].items() if k != l}}
+    for e in case["exec"]:
+        yield {**case, "exec": [x for x in case["exec"] if x != e]}
+    for k in range(len(case["edges"])):
+        yield {**case, "edges": case["edges"][:k] + case["edges"][k + 1:]}
+    if case["choices"]:
+        yield {**case, "choices": []}
+    i = case["n"] - 1
+    if case["n"] > 2 and str(i) not in case["fails"] and all(j != i for j, _i, _s in case["edges"]):
+        yield {**case, "n": i, "order": [x for x in case["order"] if x != i],
+               "edges": [e for e in case["edges"] if e[1] != i], "starters": [x for x in case["starters"] if x != i],
+               "ifs": {k: v for k, v in case["ifs"].items() if k != str(i)}, "exec": [x for x in case["exec"] if x != i]}
